@@ -2,6 +2,8 @@ package main
 
 import (
 	"fmt"
+	"go/ast"
+	"go/token"
 	"strings"
 )
 
@@ -28,6 +30,7 @@ func checkC02(c *Ctx) {
 	c02Dispatchers(c)
 	c02Pairing(c)
 	c02Determinism(c)
+	c02SliceBounds(c)
 	// concurrent/fresh-context runs must agree on label identity: the
 	// process-wide interning table inserts atomically (re-check under the
 	// write lock). Shared with C19.
@@ -132,4 +135,91 @@ func c02Determinism(c *Ctx) {
 // reviewed map iterations: function -> reason the order cannot reach output
 var c02MapExceptions = map[string]string{
 	"internal/core/toposort.(*GraphBuilder).Build": "Graph.Sort orders every component's nodes and the ready set with compareNodeByName/compareComponentsByNodes before emitting; the slice order only seeds the SCC search",
+}
+
+// c02SliceBounds: Go slice expressions with bounds computed from user values
+// in the evaluator of CUE slice expressions (`x[lo:hi]`) must be dominated by
+// the two range tests: `lo > hi` rejected, and a user-supplied `hi` compared
+// with the length. A path on which the test is skipped panics out of the
+// evaluator (slice bounds out of range) instead of reporting an error value.
+func c02SliceBounds(c *Ctx) {
+	f := c.fn(adtP, "(*SliceExpr).evaluate")
+	g := c.graph(f)
+	info := f.Info()
+	n := 0
+	for _, nd := range g.Nodes {
+		if nd.N == nil {
+			continue
+		}
+		var se *ast.SliceExpr
+		inspectShallow(nd.N, func(x ast.Node) bool {
+			if s, ok := x.(*ast.SliceExpr); ok && s.Low != nil && s.High != nil {
+				se = s
+			}
+			return true
+		})
+		if se == nil {
+			continue
+		}
+		lo, hi := identObj(info, se.Low), identObj(info, se.High)
+		if lo == nil || hi == nil {
+			continue
+		}
+		n++
+		order := func(e ast.Expr) (bool, bool) {
+			be, ok := e.(*ast.BinaryExpr)
+			if !ok {
+				return false, false
+			}
+			x, y := identObj(info, be.X), identObj(info, be.Y)
+			switch {
+			case be.Op == token.GTR && x == lo && y == hi, be.Op == token.LSS && x == hi && y == lo:
+				return true, true
+			case be.Op == token.LEQ && x == lo && y == hi, be.Op == token.GEQ && x == hi && y == lo:
+				return true, false
+			}
+			return false, false
+		}
+		r := g.gateMode(order, map[int]bool{nd.ID: true}, nil, g.Entry, false)
+		c.check("slice.bounds-gated", fmt.Sprintf("%s#slice%d/lo<=hi", f.Name, n), se.Pos(), r.found && !r.leak && !r.bypass,
+			fmt.Sprintf("the Go slice %s must be reached only after `lo > hi` was tested and rejected on every path (found=%v leak=%v bypass=%v): otherwise `[1,2,3][5:]` panics out of the evaluator", exprString(se), r.found, r.leak, r.bypass))
+		// a user-supplied upper bound is compared with the length before slicing
+		assigns := g.find(func(x ast.Node) bool {
+			as, ok := x.(*ast.AssignStmt)
+			if !ok || as.Tok != token.ASSIGN || len(as.Lhs) != 1 || identObj(info, as.Lhs[0]) != hi {
+				return false
+			}
+			return true
+		})
+		capTest := map[int]bool{}
+		for _, m := range g.Nodes {
+			for _, e := range m.Succs {
+				if e.Cond == nil {
+					continue
+				}
+				found := false
+				ast.Inspect(e.Cond, func(y ast.Node) bool {
+					if be, ok := y.(*ast.BinaryExpr); ok && (be.Op == token.GTR || be.Op == token.LEQ || be.Op == token.LSS || be.Op == token.GEQ) {
+						if (identObj(info, be.X) == hi && strings.Contains(exprString(be.Y), "len(")) || (identObj(info, be.Y) == hi && strings.Contains(exprString(be.X), "len(")) {
+							found = true
+						}
+					}
+					return true
+				})
+				if found {
+					capTest[m.ID] = true
+				}
+			}
+		}
+		okCap := len(assigns) > 0 && len(capTest) > 0
+		for _, a := range assigns {
+			rr := g.reach([]int{a}, func(id int) bool { return capTest[id] }, nil)
+			if rr[nd.ID] {
+				okCap = false
+			}
+		}
+		c.check("slice.bounds-gated", fmt.Sprintf("%s#slice%d/hi<=len", f.Name, n), se.Pos(), okCap,
+			"an upper bound taken from the expression must be compared with the length of the operand before the Go slice "+exprString(se)+" is evaluated")
+	}
+	c.expect("slice.bounds-gated", 4)
 }
